@@ -320,6 +320,7 @@ def run_check(pid, tier, only=None, keep=False, parallel=None):
         parallel = parallel or max(1, min(14, ncpu - 2))
         results = []
         build_info = {}
+        all_jobs = []
         for b in builds_needed:
             hb = [h for h in sel if b in h["builds"]]
             mods = {}
@@ -372,7 +373,6 @@ def run_check(pid, tier, only=None, keep=False, parallel=None):
                 write_evidence(pid, tier, seed, spec, [], build_info, gen_info, time.time() - t_start,
                                inconclusive=["build failed: " + b], violations=0)
                 return 2
-            jobs = []
             for h in hb:
                 mod = module_of(h["file"])
                 sub = (h["sub"] + "::") if h.get("sub") else ""
@@ -382,18 +382,23 @@ def run_check(pid, tier, only=None, keep=False, parallel=None):
                 h = dict(h)
                 h["full"] = full
                 h["build"] = b
-                jobs.append(dict(harness=full, timeout=h["timeout"], mem_gb=h["mem"], tag=b + "__", h=h))
-            # longest first
-            jobs.sort(key=lambda j: -j["timeout"])
-            def show(r, b=b):
-                h = r["job"]["h"]
-                log("[%s] %-10s %-8s %6.1fs checks=%d/%d covers=%d/%d  %s" % (
-                    pid, b, r["class"], r["wall_s"], r["checks_total"] - r["checks_failed"], r["checks_total"],
-                    r["covers_sat"], r["covers_total"], h["fn"]))
+                all_jobs.append(dict(harness=full, timeout=h["timeout"], mem_gb=h["mem"], tag=b + "__", h=h, mirror=mdir,
+                                     cbmc_extra=(h.get("cbmc") or "").split(),
+                                     target_base=tdir, features=bcfg["features"], no_default=bcfg["no_default"],
+                                     stubbing=stub))
+        # all builds are compiled; their harnesses share one worker pool (longest first)
+        all_jobs.sort(key=lambda j: -j["timeout"])
 
-            res = kani.run_many(mdir, tdir, jobs, ctx["logdir"], parallel=parallel, on_result=show,
-                                features=bcfg["features"], no_default=bcfg["no_default"], stubbing=stub)
+        def show(r):
+            h = r["job"]["h"]
+            log("[%s] %-10s %-8s %6.1fs checks=%d/%d covers=%d/%d  %s" % (
+                pid, h["build"], r["class"], r["wall_s"], r["checks_total"] - r["checks_failed"], r["checks_total"],
+                r["covers_sat"], r["covers_total"], h["fn"]))
+
+        if all_jobs:
+            res = kani.run_many(None, None, all_jobs, ctx["logdir"], parallel=parallel, on_result=show)
             for r in res:
+                r["job"] = {k: v for k, v in r["job"].items() if k not in ("mirror", "target_base")}
                 r["h"] = r["job"]["h"]
                 results.append(r)
         # ---------------- verdicts ----------------
